@@ -5,7 +5,8 @@ import H4.Props.C03
 
 Part 1: the hyperslab (strip-mine) copy of `copy_sds` visits every cell exactly once, hence equals the whole copy.
 Part 2: the layout decision (`options_get_info` + the rules around it in `copy_sds` / `copy_gr`).
-Part 3: the option grammar of `hrepack_parse.c`. -/
+Part 3: the option grammar of `hrepack_parse.c`.
+Part 4: which vgroups / vdatas are copied (`is_reserved` is an exact match on the class; every other user object arrives). -/
 namespace H4.Props.C18
 open H4.Tools H4.Slab H4.Gen.Tools
 
@@ -633,5 +634,151 @@ example : parseChunk "a:2x".toList = none := by decide +kernel               -- 
 example : parseChunk "a:1234567890".toList = none := by decide +kernel       -- does not fit in sdim[10]
 example : parseChunk "a:2xNONE".toList = some (1, [['a']], ⟨-2, []⟩) := by decide +kernel  -- NOT rejected
 example : parseChunk "a:2N".toList = some (1, [['a']], ⟨1, [2]⟩) := by decide +kernel      -- NOT rejected: atoi stops at 'N'
+
+/-! ## Part 4 — which objects are copied: the class test is an exact match -/
+
+/-- the values the statements below rely on, pinned against the generated constants -/
+theorem reserved_consts : reservedClasses.length = IS_RESERVED_NCLASSES ∧ reservedPrefix.length = IS_RESERVED_PREFIX_LEN := by decide
+
+theorem take_eq_iff_prefix (p c : Str) : c.take p.length = p ↔ p <+: c := by
+  constructor
+  · intro h
+    have := List.take_append_drop p.length c
+    rw [h] at this
+    exact ⟨_, this⟩
+  · rintro ⟨t, rfl⟩; simp
+
+/-- `is_reserved` answers yes for exactly the listed names and for every string that begins with the chunk-table prefix -/
+theorem isReserved_iff (c : Str) : isReserved c = true ↔ c ∈ reservedClasses ∨ reservedPrefix <+: c := by
+  have hl : reservedPrefix.take IS_RESERVED_PREFIX_LEN = reservedPrefix := by decide
+  have hn : IS_RESERVED_PREFIX_LEN = reservedPrefix.length := by decide
+  unfold isReserved
+  rw [Bool.or_eq_true, List.contains_iff_mem, hl, beq_iff_eq, hn, take_eq_iff_prefix]
+
+theorem reserved_no_proper_prefix : ∀ n ∈ reservedClasses, ∀ m ∈ reservedClasses, n.isPrefixOf m = true → n = m := by decide
+
+theorem reserved_head : ∀ n ∈ reservedClasses, n ≠ [] ∧ n.head? ≠ reservedPrefix.head? := by decide
+
+theorem prefix_head {p c : Str} (h : p <+: c) (hp : p ≠ []) : c.head? = p.head? := by
+  obtain ⟨t, rfl⟩ := h
+  cases p with
+  | nil => exact absurd rfl hp
+  | cons a p' => rfl
+
+/-- EXACT match: a reserved class name followed by anything at all is a user's class -/
+theorem isReserved_suffix (n s : Str) (hn : n ∈ reservedClasses) (hs : s ≠ []) : isReserved (n ++ s) = false := by
+  rw [Bool.eq_false_iff]
+  intro h
+  rcases (isReserved_iff _).1 h with hm | hp
+  · have := reserved_no_proper_prefix n hn _ hm (List.isPrefixOf_iff_prefix.2 ⟨s, rfl⟩)
+    have : n ++ s = n ++ [] := by simpa using this.symm
+    exact hs (List.append_cancel_left this)
+  · obtain ⟨hne, hh⟩ := reserved_head n hn
+    have h1 := prefix_head hp (by decide)
+    cases n with
+    | nil => exact hne rfl
+    | cons a n' => exact hh (by simpa using h1)
+
+/-- a proper prefix of a reserved class name is a user's class -/
+theorem isReserved_proper_prefix : ∀ n ∈ reservedClasses, ∀ k < n.length, isReserved (n.take k) = false := by decide
+
+def lower (s : Str) : Str := s.map Char.toLower
+
+theorem reserved_case_distinct : ∀ n ∈ reservedClasses, ∀ m ∈ reservedClasses, lower n = lower m → n = m := by decide
+
+theorem reserved_lower_head : ∀ n ∈ reservedClasses, (lower n).head? ≠ (lower reservedPrefix).head? := by decide
+
+/-- the comparison is case sensitive: a string that differs from a reserved name only in the case of letters is a user's class -/
+theorem isReserved_other_case (n c : Str) (hn : n ∈ reservedClasses) (hc : c ≠ n) (hl : lower c = lower n) : isReserved c = false := by
+  rw [Bool.eq_false_iff]
+  intro h
+  rcases (isReserved_iff _).1 h with hm | hp
+  · exact hc (reserved_case_distinct c hm n hn hl)
+  · obtain ⟨t, rfl⟩ := hp
+    apply reserved_lower_head n hn
+    rw [← hl]
+    simp [lower, reservedPrefix, cstr, IS_RESERVED_PREFIX]
+
+theorem isReserved_empty : isReserved [] = false := by decide
+
+/-- an internal name in the NAME field does not make a vgroup internal (except `GR_NAME`), and never a vdata -/
+theorem keepVgroup_of_user_class (name cls : Str) (hc : isReserved cls = false) (hn : name ≠ cstr GR_NAME_CHARS) : keepVgroup name cls = true := by
+  simp [keepVgroup, hc, hn]
+
+theorem keepVdata_of_user_class (lone : Bool) (cls : Str) (hc : isReserved cls = false) : keepVdata lone cls = true := by
+  simp [keepVdata, hc]
+
+theorem keepVdata_in_vgroup (cls : Str) : keepVdata false cls = true := by simp [keepVdata]
+
+/-- a node hrepack must treat as the user's: class not reserved; a vgroup is not named like the GR vgroup -/
+def UserNode (n : VNode) : Prop := isReserved n.cls = false ∧ (n.isVg = true → n.name ≠ cstr GR_NAME_CHARS)
+
+theorem nodeKept_user (flags : List Bool) (n : VNode) (hu : UserNode n)
+    (hp : ∀ p, n.parent = some p → flags.getD p false = true) : nodeKept flags n = true := by
+  unfold nodeKept
+  cases hpar : n.parent with
+  | none =>
+    cases hv : n.isVg with
+    | true => simpa using keepVgroup_of_user_class _ _ hu.1 (hu.2 hv)
+    | false => simpa using keepVdata_of_user_class true _ hu.1
+  | some p =>
+    have this : flags[p]?.getD false = true := by simpa [List.getD_eq_getElem?_getD] using hp p hpar
+    cases hv : n.isVg with
+    | true => simp [this, keepVgroup_of_user_class _ _ hu.1 (hu.2 hv)]
+    | false => simp [this, keepVdata_in_vgroup]
+
+theorem keptFlagsFrom_all (nodes : List VNode) : ∀ (k : Nat), (∀ n ∈ nodes, UserNode n) →
+    (∀ i (h : i < nodes.length) p, nodes[i].parent = some p → p < k + i) →
+    keptFlagsFrom nodes (List.replicate k true) = List.replicate (k + nodes.length) true := by
+  induction nodes with
+  | nil => intro k _ _; simp [keptFlagsFrom]
+  | cons n ns ih =>
+    intro k hu hp
+    have hk : nodeKept (List.replicate k true) n = true := by
+      apply nodeKept_user _ _ (hu n (by simp))
+      intro p hpar
+      have : p < k := by simpa using hp 0 (by simp) p (by simpa using hpar)
+      simp [List.getD_eq_getElem?_getD, this]
+    have hr : List.replicate k true ++ [true] = List.replicate (k + 1) true := by
+      rw [List.replicate_succ', ]
+    simp only [keptFlagsFrom, hk, hr]
+    rw [ih (k + 1) (fun m hm => hu m (by simp [hm]))]
+    · simp; omega
+    · intro i h p hpar
+      have := hp (i + 1) (by simpa using h) p (by simpa using hpar)
+      omega
+
+/-- every user vgroup and vdata is created in the output, whatever their names and classes look like, as long as no class
+    is one `is_reserved` lists and no vgroup is named `GR_NAME` -/
+theorem all_user_objects_copied (nodes : List VNode) (hu : ∀ n ∈ nodes, UserNode n)
+    (hp : ∀ i (h : i < nodes.length) p, nodes[i].parent = some p → p < i) :
+    keptFlags nodes = List.replicate nodes.length true := by
+  have := keptFlagsFrom_all nodes 0 hu (by simpa using hp)
+  simpa [keptFlags] using this
+
+/-- and a vgroup whose class IS one of the listed names is left out, with everything reached only through it -/
+theorem reserved_vgroup_dropped (flags : List Bool) (name cls : Str) (par : Option Nat) (h : isReserved cls = true) :
+    nodeKept flags ⟨true, name, cls, par⟩ = false := by
+  cases par <;> simp [nodeKept, keepVgroup, h]
+
+theorem member_of_dropped_vgroup_dropped (flags : List Bool) (n : VNode) (p : Nat) (hp : n.parent = some p) (hf : flags.getD p false = false) :
+    nodeKept flags n = false := by
+  have hf' : flags[p]?.getD false = false := by simpa [List.getD_eq_getElem?_getD] using hf
+  simp [nodeKept, hp, hf']
+
+/-- the seeded family: classes that only BEGIN like an internal class -/
+example : keptFlags [⟨true, "calibration".toList, "Var0.0.1".toList, none⟩, ⟨false, "coefficients".toList, "Coeff".toList, some 0⟩,
+                     ⟨true, "lookup".toList, "CDF0.0-index".toList, some 0⟩, ⟨false, "lone_steps".toList, "DimVal0.12".toList, none⟩,
+                     ⟨false, "lone_notes".toList, "Attr0.0_user".toList, none⟩, ⟨true, "Var0.0".toList, "var0.0".toList, none⟩,
+                     ⟨true, "g".toList, "RIG0.".toList, some 5⟩, ⟨false, "v".toList, [], none⟩] = List.replicate 8 true := by decide
+/-- and what is left out today (known finding `user-object-with-library-class-dropped`) -/
+example : keptFlags [⟨true, "g".toList, "Var0.0".toList, none⟩, ⟨false, "m".toList, "x".toList, some 0⟩, ⟨true, "RIG0.0".toList, "mine".toList, none⟩,
+                     ⟨false, "t".toList, "_HDF_CHK_TBL_7".toList, none⟩, ⟨false, "t2".toList, "Attr0.0".toList, some 2⟩] = [false, false, false, false, false] := by decide
+example : UserNode ⟨true, "Attr0.0".toList, "RIATTR0.0N ".toList, none⟩ := ⟨by decide, fun _ => by decide⟩
+
+example : isReserved ("Var0.0".toList ++ ".1".toList) = false := isReserved_suffix _ _ (by decide) (by decide)
+example : isReserved "var0.0".toList = false := isReserved_other_case "Var0.0".toList _ (by decide) (by decide) (by decide)
+example : isReserved ("DimVal0.0".toList.take 8) = false := isReserved_proper_prefix _ (by decide) 8 (by decide)
+example : isReserved "_HDF_CHK_TBL_0".toList = true ∧ isReserved "_HDF_CHK_TBL".toList = false ∧ isReserved "RIATTR0.0C".toList = true := by decide
 
 end H4.Props.C18
